@@ -2,7 +2,7 @@
 """
 verif engine: solver-based checking of /repo's real C sources with CBMC.
 
-  check.py <PROPERTY_ID> [--tier quick|thorough] [--only entry[,entry]] [--keep]
+  check.py <PROPERTY_ID> [--tier quick|thorough] [--only entry|unit|unit:entry[,...]] [--keep]
   check.py --replay <replay-file>
 
 Pipeline per run (nothing cached between runs):
@@ -339,7 +339,7 @@ def shim_env(scratch):
 
 def run_job(unit, job, scratch, tier):
     """returns dict with verdict details"""
-    cap = job.get("timeout", 240 if tier == "quick" else 2400)
+    cap = job.get("timeout", 600 if tier == "quick" else 3000)
     mem = job.get("mem_gb", 12 if tier == "quick" else 24)
     env = shim_env(scratch) if job.get("backend") == "cvc5int" else None
     cmd = cbmc_cmd(unit, job)
@@ -437,7 +437,7 @@ def extract_nd(trace):
 
 
 def get_trace(unit, job, prop, scratch, tier):
-    cap = job.get("timeout", 240 if tier == "quick" else 2400)
+    cap = job.get("timeout", 600 if tier == "quick" else 3000)
     env = shim_env(scratch) if job.get("backend") == "cvc5int" else None
     cmd = cbmc_cmd(unit, job, ["--trace", "--property", prop])
     rc, so, se, wall, rss, to = run(cmd, cap, 24, env=env)
@@ -577,7 +577,7 @@ def main():
     rc_final = 0
     try:
         sp = load_spec(pid, tier)
-        jobs = [j for j in sp["jobs"] if (only is None or j["entry"] in only)]
+        jobs = [j for j in sp["jobs"] if (only is None or j["entry"] in only or j["unit"] in only or (j["unit"] + ":" + j["entry"]) in only)]
         units = {n: Unit(n, d) for n, d in sp["units"].items() if any(j["unit"] == n for j in jobs)}
         # pre-checks (encoder validation etc.): commands that must exit 0
         pre_results = []
